@@ -26,6 +26,11 @@
 //!                                            0 Vec | 1 [String; n] (n <= 3) | 2 (0..n).map(..) | 3 .filter(..) | 4 iter::from_fn
 //!                                            | 5 .flat_map(Some) | 6 a.chain(b) | 7 once(k0).chain(rest) (n >= 1) | 8 Option (n <= 1);
 //!                                            size hints exact (0,1,2,6,7,8) or with lower bound 0 (3,4,5); 'e': items `<b>{key}</b>`, 't': `{key}`
+//!         | 'B' view                         <ErrorBoundary fallback=|_| "ERR">{view}</ErrorBoundary> (leptos; no Result::Err in `view`)
+//!         | 'D' view | 'G' view              <Suspense>{view}</Suspense> | <Transition>{view}</Transition> (fallback `()`; `view` without
+//!                                            Suspend / boundary; only in `shyd io|ooo`: to_html() of a boundary prints its fallback)
+//!         | 'H' ('0'|'1') view               <Show when=move || b>{view}</Show> (fallback `()`)
+//!         | 'M' (hex ';')* ']'               <For each=move || keys key=.. children=|k| <b>{k}</b>/>
 //!         | 'X' fid ';' view                 Suspend::new(async { rx_fid.await; view }) (reactive_graph/suspense.rs); fid = 0..15,
 //!                                            a oneshot channel the harness completes; `view` may hold Suspends that hold none
 //!                                            (one nested level); only in `shyd`/`sfrag`
@@ -135,6 +140,14 @@ enum V {
     Susp(usize, Box<V>),
     /// keyed list whose items are `<b>{Suspend::new(async { rx_fid.await; key })}</b>`
     KeyedSusp(Vec<(usize, String)>),
+    /// `<ErrorBoundary fallback=|_| "ERR">{view}</ErrorBoundary>` (leptos/src/error_boundary.rs)
+    Eb(Box<V>),
+    /// `<Suspense>{view}</Suspense>` / `<Transition>{view}</Transition>` (fallback `()`), children without async parts
+    Suspense(bool, Box<V>),
+    /// `<Show when=move || when>{view}</Show>` (fallback `()`)
+    Show(bool, Box<V>),
+    /// `<For each=move || keys key=.. children=|k| <b>{k}</b> />`
+    For(Vec<String>),
     /// keyed list fed by an iterator of the given kind (0..8, see `keyed_it`); `elem`: items `<b>{key}</b>`, else `{key}`
     KeyedIt { kind: u8, elem: bool, keys: Vec<String> },
 }
@@ -254,6 +267,27 @@ fn enc_v(v: &V, o: &mut String) {
         V::Susp(f, x) => {
             o.push_str(&format!("X{f};"));
             enc_v(x, o);
+        }
+        V::Eb(x) => {
+            o.push('B');
+            enc_v(x, o);
+        }
+        V::Suspense(tr, x) => {
+            o.push(if *tr { 'G' } else { 'D' });
+            enc_v(x, o);
+        }
+        V::Show(w, x) => {
+            o.push('H');
+            o.push(if *w { '1' } else { '0' });
+            enc_v(x, o);
+        }
+        V::For(keys) => {
+            o.push('M');
+            for k in keys {
+                o.push_str(&hx(k));
+                o.push(';');
+            }
+            o.push(']');
         }
         V::KeyedIt { kind, elem, keys } => {
             o.push('J');
@@ -424,11 +458,46 @@ impl<'a> D<'a> {
                 let f: usize = self.field()?.parse().ok()?;
                 let x = self.view()?;
                 // one level: the view a `Suspend` resolves to holds no `Suspend`
-                // at most one `Suspend` level inside the value of a `Suspend`
-                if f > 15 || susp_depth(&x) > 1 {
+                // at most one `Suspend` level inside the value of a `Suspend`; no `<Suspense>` in it
+                if f > 15 || susp_depth(&x) > 1 || has_boundary(&x) {
                     return Option::None;
                 }
                 V::Susp(f, Box::new(x))
+            }
+            b'B' => {
+                let x = self.view()?;
+                // Ok children only: the error path needs the serialized errors of a shared context
+                if has_err(&x) {
+                    return Option::None;
+                }
+                V::Eb(Box::new(x))
+            }
+            t @ (b'D' | b'G') => {
+                let x = self.view()?;
+                // a boundary whose children have no asynchronous part, not inside another one
+                if has_susp(&x) || has_boundary(&x) {
+                    return Option::None;
+                }
+                V::Suspense(t == b'G', Box::new(x))
+            }
+            b'H' => {
+                let w = match self.byte()? {
+                    b'0' => false,
+                    b'1' => true,
+                    _ => return Option::None,
+                };
+                V::Show(w, Box::new(self.view()?))
+            }
+            b'M' => {
+                let mut keys = vec![];
+                loop {
+                    if *self.s.get(self.i)? == b']' {
+                        self.i += 1;
+                        break;
+                    }
+                    keys.push(self.hex()?);
+                }
+                V::For(keys)
             }
             b'J' => {
                 let kind = self.byte()?.checked_sub(b'0')?;
@@ -619,6 +688,22 @@ fn any_e(v: &V, env: &Option<Env>) -> Option<AnyView> {
             }
             keyed_it(*kind, *elem, keys.clone())
         }
+        V::Eb(x) => wrappers::error_boundary(any_e(x, env)?),
+        V::Suspense(tr, x) => {
+            let c = any_e(x, env)?;
+            if *tr {
+                wrappers::transition(c)
+            } else {
+                wrappers::suspense(c)
+            }
+        }
+        V::Show(w, x) => {
+            any_e(x, env)?;
+            let x = (**x).clone();
+            let env = env.clone();
+            wrappers::show(*w, move || any_e(&x, &env).expect("Show children"))
+        }
+        V::For(keys) => wrappers::for_each(keys.clone()),
         V::Ok(x) => Result::<AnyView, std::fmt::Error>::Ok(any_e(x, env)?).into_any(),
         V::Err => Result::<AnyView, std::fmt::Error>::Err(std::fmt::Error).into_any(),
         V::Num(n) => (*n).into_any(),
@@ -738,12 +823,93 @@ fn keyed_it(kind: u8, elem: bool, keys: Vec<String>) -> AnyView {
     }
 }
 
+/// the leptos wrapper components (their own module: the leptos prelude is a large glob)
+mod wrappers {
+    use leptos::prelude::*;
+    use tachys::view::any_view::AnyView;
+
+    pub fn error_boundary(c: AnyView) -> AnyView {
+        view! { <ErrorBoundary fallback=|_| "ERR">{c}</ErrorBoundary> }.into_any()
+    }
+    pub fn suspense(c: AnyView) -> AnyView {
+        view! { <Suspense>{c}</Suspense> }.into_any()
+    }
+    pub fn transition(c: AnyView) -> AnyView {
+        view! { <Transition>{c}</Transition> }.into_any()
+    }
+    pub fn show(when: bool, f: impl Fn() -> AnyView + Send + Sync + 'static) -> AnyView {
+        view! { <Show when=move || when>{f()}</Show> }.into_any()
+    }
+    pub fn for_each(keys: Vec<String>) -> AnyView {
+        view! {
+            <For each=move || keys.clone() key=|k: &String| k.clone() children=|k: String| leptos::html::b().child(k)/>
+        }
+        .into_any()
+    }
+}
+
+fn has_err(v: &V) -> bool {
+    match v {
+        V::Err => true,
+        V::Elem { kids, .. } | V::Tuple(kids) | V::Vec(kids) | V::Array(kids) => kids.iter().any(has_err),
+        V::Some(x) | V::Left(x) | V::Right(x) | V::Ok(x) | V::Of3(_, x) | V::Owned(x) | V::Closure(x) | V::Susp(_, x) | V::Eb(x)
+        | V::Show(_, x) | V::Suspense(_, x) => has_err(x),
+        _ => false,
+    }
+}
+
+/// `v` with every `Result::Err` made an `Ok(())` (inside an `<ErrorBoundary>`)
+fn de_err(v: &V) -> V {
+    match v {
+        V::Err => V::Ok(Box::new(V::Unit)),
+        V::Elem { tag, attrs, kids } => V::Elem { tag: tag.clone(), attrs: attrs.clone(), kids: kids.iter().map(de_err).collect() },
+        V::Tuple(ks) => V::Tuple(ks.iter().map(de_err).collect()),
+        V::Vec(ks) => V::Vec(ks.iter().map(de_err).collect()),
+        V::Array(ks) => V::Array(ks.iter().map(de_err).collect()),
+        V::Some(x) => V::Some(Box::new(de_err(x))),
+        V::Left(x) => V::Left(Box::new(de_err(x))),
+        V::Right(x) => V::Right(Box::new(de_err(x))),
+        V::Ok(x) => V::Ok(Box::new(de_err(x))),
+        V::Of3(i, x) => V::Of3(*i, Box::new(de_err(x))),
+        V::Owned(x) => V::Owned(Box::new(de_err(x))),
+        V::Closure(x) => V::Closure(Box::new(de_err(x))),
+        V::Susp(f, x) => V::Susp(*f, Box::new(de_err(x))),
+        V::Suspense(t, x) => V::Suspense(*t, Box::new(de_err(x))),
+        V::Show(w, x) => V::Show(*w, Box::new(de_err(x))),
+        V::Eb(x) => V::Eb(Box::new(de_err(x))),
+        other => other.clone(),
+    }
+}
+
+fn n_boundaries(v: &V) -> usize {
+    match v {
+        V::Suspense(_, x) => 1 + n_boundaries(x),
+        V::Elem { kids, .. } | V::Tuple(kids) | V::Vec(kids) | V::Array(kids) => kids.iter().map(n_boundaries).sum(),
+        V::Some(x) | V::Left(x) | V::Right(x) | V::Ok(x) | V::Of3(_, x) | V::Owned(x) | V::Closure(x) | V::Susp(_, x) | V::Eb(x) => {
+            n_boundaries(x)
+        }
+        V::Show(w, x) => if *w { n_boundaries(x) } else { 0 },
+        _ => 0,
+    }
+}
+
+fn has_boundary(v: &V) -> bool {
+    match v {
+        V::Suspense(..) => true,
+        V::Elem { kids, .. } | V::Tuple(kids) | V::Vec(kids) | V::Array(kids) => kids.iter().any(has_boundary),
+        V::Some(x) | V::Left(x) | V::Right(x) | V::Ok(x) | V::Of3(_, x) | V::Owned(x) | V::Closure(x) | V::Susp(_, x) | V::Eb(x)
+        | V::Show(_, x) => has_boundary(x),
+        _ => false,
+    }
+}
+
 fn susp_depth(v: &V) -> usize {
     match v {
         V::Susp(_, x) => 1 + susp_depth(x),
         V::KeyedSusp(_) => 1,
         V::Elem { kids, .. } | V::Tuple(kids) | V::Vec(kids) | V::Array(kids) => kids.iter().map(susp_depth).max().unwrap_or(0),
-        V::Some(x) | V::Left(x) | V::Right(x) | V::Ok(x) | V::Of3(_, x) | V::Owned(x) | V::Closure(x) | V::Inert(x) => susp_depth(x),
+        V::Some(x) | V::Left(x) | V::Right(x) | V::Ok(x) | V::Of3(_, x) | V::Owned(x) | V::Closure(x) | V::Inert(x) | V::Eb(x)
+        | V::Show(_, x) | V::Suspense(_, x) => susp_depth(x),
         _ => 0,
     }
 }
@@ -752,7 +918,8 @@ fn has_susp(v: &V) -> bool {
     match v {
         V::Susp(..) | V::KeyedSusp(_) => true,
         V::Elem { kids, .. } | V::Tuple(kids) | V::Vec(kids) | V::Array(kids) => kids.iter().any(has_susp),
-        V::Some(x) | V::Left(x) | V::Right(x) | V::Ok(x) | V::Of3(_, x) | V::Owned(x) | V::Closure(x) | V::Inert(x) => has_susp(x),
+        V::Some(x) | V::Left(x) | V::Right(x) | V::Ok(x) | V::Of3(_, x) | V::Owned(x) | V::Closure(x) | V::Inert(x) | V::Eb(x)
+        | V::Show(_, x) | V::Suspense(_, x) => has_susp(x),
         _ => false,
     }
 }
@@ -765,7 +932,9 @@ fn fids_of(v: &V, out: &mut Vec<usize>) {
         }
         V::KeyedSusp(items) => out.extend(items.iter().map(|(f, _)| *f)),
         V::Elem { kids, .. } | V::Tuple(kids) | V::Vec(kids) | V::Array(kids) => kids.iter().for_each(|k| fids_of(k, out)),
-        V::Some(x) | V::Left(x) | V::Right(x) | V::Ok(x) | V::Of3(_, x) | V::Owned(x) | V::Closure(x) => fids_of(x, out),
+        V::Some(x) | V::Left(x) | V::Right(x) | V::Ok(x) | V::Of3(_, x) | V::Owned(x) | V::Closure(x) | V::Eb(x) | V::Show(_, x) => {
+            fids_of(x, out)
+        }
         _ => {}
     }
 }
@@ -972,12 +1141,21 @@ fn op_hyd(a: &[V], b: &[V]) -> String {
         .map(|s| s == html_s)
         .unwrap_or(false);
     let head = format!("html={} io={} ooo={}", if html_s.is_empty() { "-".into() } else { hx(&html_s) }, io as u8, ooo as u8);
-    hydrate_tail(&head, &html_s, va4, va5, vb, vb2, false)
+    hydrate_tail(&head, &html_s, va4, va5, vb, vb2, false, 0)
 }
 
 /// (2) the browser's reading of `html_s`, (3) real hydration with `va4`, (4) rebuild with `vb`, and the client-built
 /// twin (`va5` built, mounted, rebuilt with `vb2`).  `settle`: run the spawned tasks (a `Suspend` rebuilds in a task)
-fn hydrate_tail(head: &str, html_s: &str, va4: AnyView, va5: AnyView, vb: AnyView, vb2: AnyView, settle: bool) -> String {
+fn hydrate_tail(
+    head: &str,
+    html_s: &str,
+    va4: AnyView,
+    va5: AnyView,
+    vb: AnyView,
+    vb2: AnyView,
+    settle: bool,
+    detached: usize,
+) -> String {
     let Some(tree) = html::parse(html_s) else {
         return format!("{head} tree=none ## fail parse-none");
     };
@@ -991,7 +1169,7 @@ fn hydrate_tail(head: &str, html_s: &str, va4: AnyView, va5: AnyView, vb: AnyVie
     let (outcome, st) = hydrate_outcome(va4, &root);
     let created = nd::nodes_created() - before;
     let Some(mut st) = st else {
-        return format!("{head} tree={} hyd={outcome} created={created} ## fail hydration-error", enc_trees(&tree));
+        return format!("{head} tree={} hyd={outcome} created=0 ## fail hydration-error", enc_trees(&tree));
     };
     // (4) rebuild, and the client-built twin
     let r1 = catch_unwind(AssertUnwindSafe(|| {
@@ -1017,7 +1195,8 @@ fn hydrate_tail(head: &str, html_s: &str, va4: AnyView, va5: AnyView, vb: AnyVie
         "fail rebuild-panic".to_string()
     } else if !dom_errs.is_empty() {
         "fail dom-error".to_string()
-    } else if created != 0 {
+    } else if created != detached {
+        // (a `<Suspense>` / `<Transition>` boundary keeps its unshown fallback `()` alive: one detached node each)
         "fail nodes-created".to_string()
     } else if strip(&after) != strip(&csr) {
         "fail differs-from-csr".to_string()
@@ -1105,7 +1284,7 @@ fn op_shyd(mode: &str, d0: &[usize], steps: &[Vec<usize>], a: &[V], b: &[V]) -> 
         Ok((raw, html_s)) => {
             let hxd = |s: &str| if s.is_empty() { "-".to_string() } else { hx(s) };
             let head = format!("raw={} html={}", hxd(&raw), hxd(&html_s));
-            hydrate_tail(&head, &html_s, va4, va5, vb, vb2, true)
+            hydrate_tail(&head, &html_s, va4, va5, vb, vb2, true, a.iter().map(n_boundaries).sum())
         }
     }
 }
@@ -1154,6 +1333,8 @@ fn server_render(
                     newly.iter().for_each(|k| env.send(*k));
                 }
                 n += 1;
+                // the executor is drained between polls (the task-set effect of a `<Suspense>` needs one turn)
+                sched::run_until_idle(100_000);
                 match stream.as_mut().poll_next(&mut cx) {
                     Poll::Ready(Some(s)) => raw.push_str(&s),
                     Poll::Ready(Option::None) => finished = true,
@@ -1329,19 +1510,22 @@ fn op(line: &str, tags: &std::collections::HashMap<String, String>) -> String {
     // a reactive owner per op: `OwnedView::new` and the render effects of closures need one
     let owner = reactive_graph::owner::Owner::new();
     owner.set();
+    // views are rendered outside effects here: no "outside a reactive tracking context" warnings
+    #[cfg(debug_assertions)]
+    let _zone = reactive_graph::diagnostics::SpecialNonReactiveZone::enter();
     match w.as_slice() {
         ["case", n] => match tags.get(*n) {
             Some(t) if !t.is_empty() => format!("case {n} tags={t}"),
             _ => format!("case {n}"),
         },
         ["hyd", a, b] => match (decode(a), decode(b)) {
-            (Some(a), Some(b)) if !a.iter().chain(&b).any(has_susp) => op_hyd(&a, &b),
+            (Some(a), Some(b)) if !a.iter().chain(&b).any(|v| has_susp(v) || has_boundary(v)) => op_hyd(&a, &b),
             _ => "bad-op".into(),
         },
         ["frag", tag, p, ia, ib, q] => match (decode_seq(p), decode_seq(ia), decode_seq(ib), decode_seq(q)) {
             (Some(p), Some(ia), Some(ib), Some(q))
                 if p.len() + ia.len() + q.len() <= 5
-                    && !p.iter().chain(&ia).chain(&ib).chain(&q).any(has_susp)
+                    && !p.iter().chain(&ia).chain(&ib).chain(&q).any(|v| has_susp(v) || has_boundary(v))
                     && !tag.is_empty()
                     && tag.bytes().all(|b| b.is_ascii_lowercase() || b.is_ascii_digit() || b == b'-') =>
             {
@@ -1350,7 +1534,7 @@ fn op(line: &str, tags: &std::collections::HashMap<String, String>) -> String {
             _ => "bad-op".into(),
         },
         ["mis", a, c] => match (decode(a), decode(c)) {
-            (Some(a), Some(c)) if !a.iter().chain(&c).any(has_susp) => op_mis(&a, &c),
+            (Some(a), Some(c)) if !a.iter().chain(&c).any(|v| has_susp(v) || has_boundary(v)) => op_mis(&a, &c),
             _ => "bad-op".into(),
         },
         ["sfrag", mode @ ("io" | "ooo" | "res" | "sync"), d0, steps, tag, p, ia, ib, q] => {
@@ -1361,6 +1545,7 @@ fn op(line: &str, tags: &std::collections::HashMap<String, String>) -> String {
                     if steps.len() <= 8
                         && p.len() + ia.len() + q.len() <= 5
                         && !p.iter().chain(&q).any(has_susp)
+                        && !p.iter().chain(&ia).chain(&ib).chain(&q).any(has_boundary)
                         && !tag.is_empty()
                         && tag.bytes().all(|b| b.is_ascii_lowercase() || b.is_ascii_digit() || b == b'-') =>
                 {
@@ -1373,7 +1558,11 @@ fn op(line: &str, tags: &std::collections::HashMap<String, String>) -> String {
             let steps: Option<Vec<Vec<usize>>> =
                 if *steps == "-" { Some(vec![]) } else { steps.split('/').map(parse_fids).collect() };
             match (parse_fids(d0), steps, decode(a), decode(b)) {
-                (Some(d0), Some(steps), Some(a), Some(b)) if steps.len() <= 8 => op_shyd(mode, &d0, &steps, &a, &b),
+                (Some(d0), Some(steps), Some(a), Some(b))
+                    if steps.len() <= 8 && !((*mode == "res" || *mode == "sync") && a.iter().any(has_boundary)) =>
+                {
+                    op_shyd(mode, &d0, &steps, &a, &b)
+                }
                 _ => "bad-op".into(),
             }
         }
@@ -1567,6 +1756,21 @@ fn v_tags(v: &V, t: &mut BTreeSet<String>) {
         }
         V::KeyedSusp(_) => {
             t.insert("keyed-suspend-items".into());
+        }
+        V::Eb(x) => {
+            t.insert("error-boundary".into());
+            v_tags(x, t);
+        }
+        V::Suspense(tr, x) => {
+            t.insert(if *tr { "transition" } else { "suspense" }.into());
+            v_tags(x, t);
+        }
+        V::Show(w, x) => {
+            t.insert(if *w { "show-true" } else { "show-false" }.into());
+            v_tags(x, t);
+        }
+        V::For(ks) => {
+            t.insert(if ks.is_empty() { "for-empty" } else { "for" }.into());
         }
         V::KeyedIt { kind, elem, keys } => {
             t.insert(if keys.is_empty() { "keyed-empty" } else if *elem { "keyed" } else { "keyed-text-items" }.into());
@@ -1929,7 +2133,13 @@ fn gen_ext(r: &mut Rng, depth: usize, anc: &mut Vec<&'static str>) -> V {
         },
         8 => V::Of3(r.below(3) as u8, Box::new(gen_v(r, d1, anc))),
         9 => V::Array(gen_seq(r, d1, anc, 1, 3)),
-        10 => V::Owned(Box::new(gen_v(r, d1, anc))),
+        10 => match r.below(4) {
+            0 => V::Owned(Box::new(gen_v(r, d1, anc))),
+            // the leptos wrapper components
+            1 => V::Eb(Box::new(de_err(&gen_v(r, d1, anc)))),
+            2 => V::Show(r.chance(2, 3), Box::new(gen_v(r, d1, anc))),
+            _ => V::For(gen_keys(r, 0, 3)),
+        },
         _ => V::Closure(Box::new(gen_v(r, d1, anc))),
     }
 }
@@ -2160,6 +2370,16 @@ fn mutate(r: &mut Rng, v: &V, depth: usize, anc: &mut Vec<&'static str>) -> V {
             let y = mutate(r, x, depth.saturating_sub(1), anc);
             V::Susp(*f, Box::new(if susp_depth(&y) > 1 { (**x).clone() } else { y }))
         }
+        V::Eb(x) => V::Eb(Box::new(de_err(&mutate(r, x, depth.saturating_sub(1), anc)))),
+        V::Suspense(tr, x) => {
+            let y = mutate(r, x, depth.saturating_sub(1), anc);
+            V::Suspense(*tr, Box::new(if has_susp(&y) || has_boundary(&y) { (**x).clone() } else { y }))
+        }
+        V::Show(w, x) => V::Show(if r.chance(1, 3) { !*w } else { *w }, Box::new(mutate(r, x, depth.saturating_sub(1), anc))),
+        V::For(ks) => match mutate(r, &V::Keyed(ks.clone()), depth, anc) {
+            V::Keyed(o) => V::For(o),
+            _ => V::For(ks.clone()),
+        },
         V::KeyedIt { kind, elem, keys } => {
             // as for `Keyed` / `KeyedText`; the iterator kind stays (now and then another one: a different Rust type)
             let out = match mutate(r, &if *elem { V::Keyed(keys.clone()) } else { V::KeyedText(keys.clone()) }, depth, anc) {
@@ -2340,6 +2560,61 @@ fn small_scope() -> Vec<(String, Vec<V>, Vec<V>)> {
             }
         }
     }
+    // the leptos wrapper components: <ErrorBoundary> (Ok children), <Show>, <For>: every sibling position x shape of the children
+    {
+        let ok = |v: V| V::Ok(Box::new(v));
+        let shapes: Vec<(&str, V, V)> = vec![
+            ("text", t("c"), t("C")),
+            ("ok-text", ok(t("c")), ok(t("C"))),
+            ("elem", e("b", vec![t("c")]), e("b", vec![t("C")])),
+            ("text-elem", V::Tuple(vec![t("c"), e("b", vec![])]), V::Tuple(vec![t("C"), e("b", vec![])])),
+            ("elem-text", V::Tuple(vec![e("b", vec![]), t("c")]), V::Tuple(vec![e("b", vec![]), t("C")])),
+            ("unit", V::Unit, V::Unit),
+            ("vec", V::Vec(vec![t("c")]), V::Vec(vec![t("C"), t("D")])),
+            ("empty-text", t(""), t("C")),
+        ];
+        let sibs: Vec<(&str, Vec<V>)> = vec![("none", vec![]), ("text", vec![t("s")]), ("elem", vec![e("i", vec![])])];
+        for (sn, va, vb) in &shapes {
+            for (bn, before) in &sibs {
+                for (an, after) in &sibs {
+                    for in_elem in [false, true] {
+                        let wrappers: Vec<(&str, V, V)> = vec![
+                            ("eb", V::Eb(Box::new(va.clone())), V::Eb(Box::new(vb.clone()))),
+                            ("show1", V::Show(true, Box::new(va.clone())), V::Show(false, Box::new(vb.clone()))),
+                            ("show0", V::Show(false, Box::new(va.clone())), V::Show(true, Box::new(vb.clone()))),
+                            ("eb-in-show", V::Show(true, Box::new(V::Eb(Box::new(va.clone())))), V::Show(true, Box::new(V::Eb(Box::new(vb.clone()))))),
+                        ];
+                        for (wn, wa, wb) in wrappers {
+                            let mk = |w: &V| {
+                                let mut s2 = before.clone();
+                                s2.push(w.clone());
+                                s2.extend(after.iter().cloned());
+                                if in_elem {
+                                    vec![e("p", s2)]
+                                } else {
+                                    s2
+                                }
+                            };
+                            add(&format!("w-{wn}-{sn}-{bn}-{an}-{}", in_elem as u8), mk(&wa), mk(&wb));
+                        }
+                    }
+                }
+            }
+        }
+        for (bn, before) in &sibs {
+            for (an, after) in &sibs {
+                for (kn, ka, kb) in [("0", ks(&[]), ks(&["1"])), ("3", ks(&["1", "2", "3"]), ks(&["3", "1", "4"]))] {
+                    let mk = |k: &Vec<String>| {
+                        let mut s2 = before.clone();
+                        s2.push(V::For(k.clone()));
+                        s2.extend(after.iter().cloned());
+                        vec![e("div", s2)]
+                    };
+                    add(&format!("w-for{kn}-{bn}-{an}"), mk(&ka), mk(&kb));
+                }
+            }
+        }
+    }
     // AnyView with another type on rebuild
     add("any-replace", vec![t("a"), e("b", vec![t("x")]), t("c")], vec![t("a"), t("plain"), t("c")]);
     out
@@ -2365,6 +2640,71 @@ fn position_cases() -> bool {
     SUSPEND_POSITION_CASES || std::env::var_os("HX_C05_ALL").is_some()
 }
 
+/// Has hooks/fix-c05-5.patch (`fix: <ErrorBoundary> must hand the position its children leave on …`, F-C05-7) been applied
+/// to /repo?  While it has not, inputs in which the children of an `<ErrorBoundary>` change whether the position is
+/// "after a string" are not generated (before the repair the server continues with the position from *before* the
+/// boundary there; everywhere else the HTML is the same before and after the repair).  To switch on: set this to
+/// `true` and rename corpus/C05/F-C05-7-error-boundary-position.ops.pending to `.ops`.
+const EB_WRITE_BACK_FIXED: bool = true;
+
+fn eb_cases() -> bool {
+    EB_WRITE_BACK_FIXED || std::env::var_os("HX_C05_ALL").is_some()
+}
+
+/// some `<ErrorBoundary>` of `v` (rendered from `pos`) has children that change the "after a string" state
+fn eb_matters(v: &V, pos: Pos) -> bool {
+    match v {
+        V::Elem { kids, .. } => seq_eb_matters(kids, Pos::First),
+        V::Tuple(ks) | V::Array(ks) | V::Vec(ks) => seq_eb_matters(ks, pos),
+        V::Some(x) | V::Left(x) | V::Right(x) | V::Ok(x) | V::Of3(_, x) | V::Owned(x) | V::Closure(x) | V::Susp(_, x)
+        | V::Suspense(_, x) => eb_matters(x, pos),
+        V::Show(w, x) => *w && eb_matters(x, pos),
+        V::Eb(x) => (pos == Pos::AfterText) != (pos_after(x, pos) == Pos::AfterText) || eb_matters(x, pos),
+        _ => false,
+    }
+}
+
+fn seq_eb_matters(ks: &[V], mut pos: Pos) -> bool {
+    for k in ks {
+        if eb_matters(k, pos) {
+            return true;
+        }
+        pos = pos_after(k, pos);
+    }
+    false
+}
+
+/// `v` without its `<ErrorBoundary>` wrappers
+fn de_eb(v: &V) -> V {
+    match v {
+        V::Eb(x) => de_eb(x),
+        V::Elem { tag, attrs, kids } => V::Elem { tag: tag.clone(), attrs: attrs.clone(), kids: kids.iter().map(de_eb).collect() },
+        V::Tuple(ks) => V::Tuple(ks.iter().map(de_eb).collect()),
+        V::Vec(ks) => V::Vec(ks.iter().map(de_eb).collect()),
+        V::Array(ks) => V::Array(ks.iter().map(de_eb).collect()),
+        V::Some(x) => V::Some(Box::new(de_eb(x))),
+        V::Left(x) => V::Left(Box::new(de_eb(x))),
+        V::Right(x) => V::Right(Box::new(de_eb(x))),
+        V::Ok(x) => V::Ok(Box::new(de_eb(x))),
+        V::Of3(i, x) => V::Of3(*i, Box::new(de_eb(x))),
+        V::Owned(x) => V::Owned(Box::new(de_eb(x))),
+        V::Closure(x) => V::Closure(Box::new(de_eb(x))),
+        V::Susp(f, x) => V::Susp(*f, Box::new(de_eb(x))),
+        V::Suspense(t, x) => V::Suspense(*t, Box::new(de_eb(x))),
+        V::Show(w, x) => V::Show(*w, Box::new(de_eb(x))),
+        other => other.clone(),
+    }
+}
+
+/// the views as they may be generated on the current /repo
+fn eb_gate(vs: &[V]) -> Vec<V> {
+    if !eb_cases() && seq_eb_matters(vs, Pos::First) {
+        vs.iter().map(de_eb).collect()
+    } else {
+        vs.to_vec()
+    }
+}
+
 #[derive(Clone, Copy, PartialEq, Debug)]
 enum Pos {
     First,
@@ -2377,7 +2717,15 @@ fn pos_after(v: &V, pos: Pos) -> Pos {
     match v {
         V::Text(_) | V::Num(_) | V::ArcStr(_) | V::CowStr(_) => Pos::AfterText,
         V::Unit | V::None | V::Err | V::Elem { .. } | V::Inert(_) => Pos::Next,
-        V::Vec(_) | V::Keyed(_) | V::KeyedText(_) | V::KeyedSusp(_) | V::KeyedIt { .. } => Pos::Next,
+        V::Vec(_) | V::Keyed(_) | V::KeyedText(_) | V::KeyedSusp(_) | V::KeyedIt { .. } | V::For(_) => Pos::Next,
+        V::Eb(x) | V::Suspense(_, x) => pos_after(x, pos),
+        V::Show(w, x) => {
+            if *w {
+                pos_after(x, pos)
+            } else {
+                Pos::Next
+            }
+        }
         V::Tuple(ks) | V::Array(ks) => ks.iter().fold(pos, |p, k| pos_after(k, p)),
         V::Some(x) | V::Left(x) | V::Right(x) | V::Ok(x) | V::Of3(_, x) | V::Owned(x) | V::Closure(x) | V::Susp(_, x) => {
             pos_after(x, pos)
@@ -2392,9 +2740,12 @@ fn guesses_right(v: &V, pos: Pos, ooo: bool, d0: &[usize], later: bool) -> bool 
     match v {
         V::Elem { kids, .. } => seq_guesses_right(kids, Pos::First, ooo, d0, later),
         V::Tuple(ks) | V::Array(ks) | V::Vec(ks) => seq_guesses_right(ks, pos, ooo, d0, later),
-        V::Some(x) | V::Left(x) | V::Right(x) | V::Ok(x) | V::Of3(_, x) | V::Owned(x) | V::Closure(x) => {
+        V::Some(x) | V::Left(x) | V::Right(x) | V::Ok(x) | V::Of3(_, x) | V::Owned(x) | V::Closure(x) | V::Eb(x) => {
             guesses_right(x, pos, ooo, d0, later)
         }
+        V::Show(w, x) => !*w || guesses_right(x, pos, ooo, d0, later),
+        // a boundary is always pending when it is rendered asynchronously (its task-set effect needs one executor turn)
+        V::Suspense(_, x) => guesses_right(x, pos, ooo, d0, true) && pos_after(x, pos) == if ooo { pos } else { Pos::Next },
         V::Susp(f, x) => {
             if !later && d0.contains(f) {
                 guesses_right(x, pos, ooo, d0, false)
@@ -2578,6 +2929,27 @@ fn susp_scope(f: &mut impl std::io::Write) -> std::io::Result<()> {
                     for (on, d0, steps) in &n_orders {
                         for mode in ["io", "ooo", "res"] {
                             write_shyd(f, &format!("ss-suspn-{cn}-{bn}-{nn}-{an}-{on}-{mode}"), mode, d0, steps, &a, &b)?;
+                        }
+                    }
+                }
+            }
+        }
+    }
+    // <Suspense> / <Transition> whose children have no asynchronous part, in both stream forms
+    for (cn, wrap) in containers.iter().filter(|c| ["top", "elem", "vec", "some", "closure"].contains(&c.0)) {
+        for (bn, before) in &befores {
+            for (an, after) in &afters {
+                for (inn, ia, ib) in &inners {
+                    for tr in [false, true] {
+                        let mk = |inner: &V| {
+                            let mut s = before.clone();
+                            s.push(V::Suspense(tr, Box::new(inner.clone())));
+                            s.extend(after.iter().cloned());
+                            wrap(s)
+                        };
+                        let (a, b) = (mk(ia), mk(ib));
+                        for mode in ["io", "ooo"] {
+                            write_shyd(f, &format!("ss-boundary{}-{cn}-{bn}-{inn}-{an}-{mode}", tr as u8), mode, &[], &[], &a, &b)?;
                         }
                     }
                 }
@@ -2773,8 +3145,17 @@ fn de_arc(v: &V) -> V {
 fn gen_shyd(r: &mut Rng, a: &[V], depth: usize, f: &mut impl std::io::Write) -> std::io::Result<bool> {
     for _try in 0..6 {
         let mut next = 0usize;
-        let a2: Vec<V> = a.iter().map(|v| add_susp(r, v, &mut next, 3)).collect();
-        if next == 0 {
+        let mut a2: Vec<V> = a.iter().map(|v| add_susp(r, v, &mut next, 3)).collect();
+        // a `<Suspense>` / `<Transition>` boundary around a top-level view without asynchronous parts
+        let mut boundary = false;
+        if r.chance(1, 3) {
+            let i = r.below(a2.len());
+            if !has_susp(&a2[i]) && !has_boundary(&a2[i]) {
+                a2[i] = V::Suspense(r.chance(1, 3), Box::new(a2[i].clone()));
+                boundary = true;
+            }
+        }
+        if next == 0 && !boundary {
             continue;
         }
         let mut anc: Vec<&'static str> = vec![];
@@ -2782,7 +3163,7 @@ fn gen_shyd(r: &mut Rng, a: &[V], depth: usize, f: &mut impl std::io::Write) -> 
         if b.iter().any(|v| susp_depth(v) > 2) {
             continue;
         }
-        let mode = *r.pick(&["io", "io", "ooo", "ooo", "res", "sync"]);
+        let mode = if boundary { *r.pick(&["io", "ooo"]) } else { *r.pick(&["io", "io", "ooo", "ooo", "res", "sync"]) };
         let fids: Vec<usize> = (0..next).collect();
         let d0: Vec<usize> = if mode == "sync" { fids.clone() } else { fids.iter().copied().filter(|_| r.chance(1, 4)).collect() };
         let in_class = in_position_class(mode, &d0, &a2);
@@ -2793,6 +3174,8 @@ fn gen_shyd(r: &mut Rng, a: &[V], depth: usize, f: &mut impl std::io::Write) -> 
         // in that class two string states may share one text node, which makes visible that `Arc<str>::rebuild`
         // writes whenever the pointer differs (the model writes when the string differs): plain strings there
         let (a2, b): (Vec<V>, Vec<V>) = if in_class { (a2.iter().map(de_arc).collect(), b.iter().map(de_arc).collect()) } else { (a2, b) };
+        // (and, until fix-c05-5 is in /repo, no `<ErrorBoundary>` there: the position it starts from is a guessed one)
+        let a2: Vec<V> = if in_class && !eb_cases() { a2.iter().map(de_eb).collect() } else { a2 };
         // completion order: every pending future gets a poll number (or stays for the end)
         let n_steps = r.range(0, 4);
         let mut steps: Vec<Vec<usize>> = vec![vec![]; n_steps];
@@ -2819,6 +3202,9 @@ fn gen(seed: u64, n: usize, path: &str) -> std::io::Result<()> {
     let mut r = Rng::new(seed);
     let mut f = std::io::BufWriter::new(std::fs::File::create(path)?);
     for (name, a, b) in small_scope() {
+        if !eb_cases() && seq_eb_matters(&a, Pos::First) {
+            continue;
+        }
         writeln!(f, "case {name}\nhyd {} {}", encode(&a), encode(&b))?;
     }
     // Fragment (StaticVec): empty / non-empty, first / after a sibling, followed by a sibling or not
@@ -2841,7 +3227,7 @@ fn gen(seed: u64, n: usize, path: &str) -> std::io::Result<()> {
         writeln!(f, "case {i}")?;
         let mut anc: Vec<&'static str> = vec![];
         let depth = r.range(1, 4);
-        let a = gen_seq(&mut r, depth, &mut anc, 1, 3);
+        let a = eb_gate(&gen_seq(&mut r, depth, &mut anc, 1, 3));
         if r.chance(1, 5) && gen_shyd(&mut r, &a, depth, &mut f)? {
             continue;
         }
@@ -2854,6 +3240,14 @@ fn gen(seed: u64, n: usize, path: &str) -> std::io::Result<()> {
             let ia = gen_seq(&mut r, d2, &mut anc2, 0, 2);
             let ib = gen_seq(&mut r, d2, &mut anc2, 0, 2);
             let post = if r.chance(1, 2) { vec![] } else { gen_seq(&mut r, d2, &mut anc2, 1, 2) };
+            let (pre, ia, post) = {
+                let kids: Vec<V> = pre.iter().chain(&ia).chain(&post).cloned().collect();
+                if !eb_cases() && eb_matters(&e(tag, kids), Pos::First) {
+                    (pre.iter().map(de_eb).collect::<Vec<V>>(), ia.iter().map(de_eb).collect::<Vec<V>>(), post.iter().map(de_eb).collect::<Vec<V>>())
+                } else {
+                    (pre, ia, post)
+                }
+            };
             if r.chance(1, 3) && !ia.is_empty() {
                 // items that suspend
                 let mut next = 0usize;
@@ -2882,11 +3276,12 @@ fn gen(seed: u64, n: usize, path: &str) -> std::io::Result<()> {
         if r.chance(1, 12) && !a.iter().any(has_inert) {
             // mismatching DOM: the walk's error paths (an `InertElement` fails its cast with a bare `unwrap()`,
             // which reports nothing: not used here)
-            let c = if r.chance(1, 2) {
+            let c: Vec<V> = if r.chance(1, 2) {
                 gen_seq(&mut r, depth, &mut anc, 1, 3)
             } else {
                 a.iter().map(|v| mutate(&mut r, v, depth, &mut anc)).collect()
             };
+            let c = eb_gate(&c);
             writeln!(f, "mis {} {}", encode(&a), encode(&c))?;
         } else {
             let b: Vec<V> = a.iter().map(|v| mutate(&mut r, v, depth, &mut anc)).collect();
